@@ -542,22 +542,67 @@ def c08_n2(ctx):
             yield ok("C08-N2", "send_naks:requests", where, "drain(..min(len, max_nak_num(config.file_size_flag, config.file_size_segment)))")
         else:
             yield bad("C08-N2", "send_naks:requests", where, "the number of requests per PDU is bounded by %s, not min(queue length, max_nak_num(config.file_size_flag, config.file_size_segment))" % (bound or rt[:160]))
-    for nm, val, pick, fld in (("start_of_scope", s0, "first", "start_offset"), ("end_of_scope", s1, "last", "end_offset")):
-        vt = expr_str(val) if val else "?"
-        mm = re.match(r"^Option::unwrap_or\(Option::map\(slice::%s\((.+?)\), closure (send_naks::\{closure#\d+\})\{\}\), (.+)\)$" % pick, vt)
+    ebu2 = ExprBuilder(ctx.prog, f, user_stop=True)
+    eu2 = simp(ebu2.rvalue(s["rv"]))
+    fu = _fields(eu2)
+    reqs_var = expr_str(fu.get("segment_requests"))
+    for nm, pick, fld in (("start_of_scope", "first", "start_offset"), ("end_of_scope", "last", "end_offset")):
         key = "send_naks:%s" % nm
-        if not mm or mm.group(1) != rt:
-            yield bad("C08-N2", key, where, "%s is %s, not the %s request's %s of the requests sent in this PDU" % (nm, vt[:200], pick, fld))
-            continue
-        clo = [c for c in ctx.prog.closures_of(f) if c.norm.endswith(mm.group(2))]
-        body = ""
-        if clo:
-            ebc = ExprBuilder(ctx.prog, clo[0])
-            body = ",".join(sstr(ebc._def_expr(d, 0, (0,))) for d in clo[0].defs(0) if d[0] in ("assign", "call"))
-        if body.endswith("." + fld):
-            yield ok("C08-N2", key, where, "%s().%s of the drained requests" % (pick, fld))
+        v = fu.get(nm)
+        alts = _value_alternatives(ctx, f, ebu2, v)
+        picked = []
+        other = []
+        for a in alts:
+            at_ = expr_str(a)
+            mb = re.match(r"^(\w+)((?:\.\*)?\.\w+)$", at_) if a[0] == "place" else None
+            if mb:
+                # a pattern binding: follow it to what it was bound to
+                ds = [expr_str(simp(d)) for d in ebu2.var_defs(mb.group(1))]
+                if len(ds) == 1:
+                    at_ = ds[0] + mb.group(2)
+            # slice::first(REQS)@Some.0.start_offset   or   Option::map(slice::first(REQS), closure returning .start_offset)
+            if re.match(r"^\(slice::%s\(%s\)\)@Some\.0(\.\*)?\.%s$" % (pick, re.escape(reqs_var), fld), at_):
+                picked.append(at_)
+            elif a[0] == "call" and (callee_name(a) or "").split("::")[-1] in ("unwrap_or", "map_or", "unwrap_or_default", "unwrap_or_else"):
+                inner = [x for x in walk(a) if x[0] == "call" and (callee_name(x) or "").endswith("slice::%s" % pick) and x[3] and expr_str(simp(x[3][0])) == reqs_var]
+                clo = [x for x in walk(a) if x[0] == "agg" and x[1] == "closure"]
+                body = ""
+                if clo:
+                    c = ctx.prog.by_norm.get(clo[0][2])
+                    if c is not None:
+                        ebc = ExprBuilder(ctx.prog, c)
+                        body = ",".join(sstr(ebc._def_expr(d, 0, (0,))) for d in c.defs(0) if d[0] in ("assign", "call"))
+                if inner and body.endswith("." + fld):
+                    picked.append(at_[:80])
+                else:
+                    other.append(at_[:80])
+            elif re.search(r"slice::(first|last)\(|\.(start|end)_offset", at_):
+                other.append(at_[:80])
+            # anything else (constants, end of held data) is the default for an empty request list
+        if picked and not other:
+            yield ok("C08-N2", key, where, "%s().%s of the requests sent in this PDU" % (pick, fld))
         else:
-            yield bad("C08-N2", key, where, "%s takes %s of the %s request, expected its %s" % (nm, body, pick, fld))
+            yield bad("C08-N2", key, where, "%s is %s, not the %s request's %s of the requests sent in this PDU" % (nm, [expr_str(a)[:100] for a in alts], pick, fld))
+
+
+def _value_alternatives(ctx, f, ebu, v, depth=0):
+    """Alternatives of a value: phi branches and the definitions of user variables, flattened."""
+    if v is None or depth > 4:
+        return []
+    v = simp(v)
+    if v[0] == "phi":
+        out = []
+        for x in v[2]:
+            out.extend(_value_alternatives(ctx, f, ebu, x, depth + 1))
+        return out
+    if v[0] == "place" and re.match(r"^\w+$", v[1]):
+        ds = ebu.var_defs(v[1])
+        if ds and not any(simp(d)[0] == "place" and simp(d)[1] == v[1] for d in ds):
+            out = []
+            for d in ds:
+                out.extend(_value_alternatives(ctx, f, ebu, d, depth + 1))
+            return out
+    return [v]
 
 
 @rule("C08", "C08-N4", 1, "the full NAK list asks for the gaps of [0, EOF size) - or up to the end of the data held when no EOF was received - plus the metadata marker")
@@ -595,21 +640,15 @@ def c08_n4(ctx):
             yield bad("C08-N4", key, at(g2, s["span"]["line"]), "the NAK queue is replaced by %s" % e[:160])
 
 
-NAK_QUEUE_OK = {
-    # (function, mutator) pairs confirmed by reading
-    ("send_naks", "drain"): "requests leave the queue by being sent",
-    ("handle_timeout", "push_back"): "checked by C08-N1",
-    ("get_all_naks", "push_back"): "local list, checked by C08-N1",
-    ("process_pdu", "push_back"): "checked by C08-N1",
-}
 READ_ONLY = ("len", "is_empty", "iter", "front", "back", "get", "contains", "as_slices", "deref", "clone", "first", "last")
 
 
-@rule("C08", "C08-N5", 3, "requests leave the receiver's NAK queue only by being sent (drain in send_naks) or by a full recomputation; nothing else shrinks or edits it")
+@rule("C08", "C08-N5", 3, "requests leave the receiver's NAK queue only by being sent (drain in the function that builds the NAK PDU) or by a full recomputation; requests enter it only as checked constructions; nothing else shrinks or edits it")
 def c08_n5(ctx):
     fns = impl_and_closures(ctx, RECV)
     n = 0
     cnt = {}
+    builds_nak = {f.norm for f, b, j, s in agg_sites(fns, "NegativeAcknowledgmentPDU")}
     for f in fns:
         eb = ExprBuilder(ctx.prog, f, inline=False)
         for b, t in f.all_calls():
@@ -624,16 +663,20 @@ def c08_n5(ctx):
                 continue
             n += 1
             fname = f.name if f.kind != "Closure" else short(f.root or f.norm).split("::")[-1]
-            base = "RecvTransaction::%s:naks.%s" % (fname, last)
+            base = "RecvTransaction:naks.%s" % last
             cnt[base] = cnt.get(base, 0) + 1
             key = base + ("#%d" % cnt[base] if cnt[base] > 1 else "")
-            why = NAK_QUEUE_OK.get((fname, last))
-            if last == "extend" and fname in ("handle_timeout", "get_all_naks"):
+            why = None
+            if last in ("push_back", "push_front"):
+                why = "a request is added (its construction is checked by C08-N1)"
+            elif last == "drain" and (f.root or f.norm) in builds_nak:
+                why = "requests leave the queue by being sent in the NAK PDU built here"
+            elif last == "extend":
                 arg = sstr(ExprBuilder(ctx.prog, f).call(b, t)[3][1]) if len(e[3]) > 1 else ""
                 if re.match(r"^Iterator::map\(IntoIterator>::into_iter\(Segments::gaps\(", arg):
                     why = "extended with requests mapped from Segments::gaps(..) (checked by C08-N1)"
             if why:
-                yield ok("C08-N5", key, at(f, t["span"]["line"]), why)
+                yield ok("C08-N5", key, at(f, t["span"]["line"]), "%s: %s" % (fname, why))
             else:
                 yield bad("C08-N5", key, at(f, t["span"]["line"]), "the NAK queue is modified by %s in %s: a queued request for data still missing can be dropped or altered without having been sent" % (last, fname))
     if n == 0:
